@@ -54,6 +54,10 @@ def gen_case(rng, nmax=30, metrics=('euclidean', 'euclidean', 'cityblock', 'cheb
         maxlag = float(math.ceil(dmax) + rng.randint(1, 3))
     else:
         ud = sorted(set(float(x) for x in D if x >= 1.0))
+        if metric == 'euclidean':
+            # "maxlag equal to an occurring distance" only where that distance is exactly representable: the KD-tree of the
+            # truncated path has its own arithmetic and may place an irrational distance one ulp beyond the same float
+            ud = [x for x in ud if Fraction(x) ** 2 in {gen.exact_dist(c[a_], c[b_], 'euclidean') for a_ in range(n) for b_ in range(a_ + 1, n)}] if n <= 40 else []
         if ud and rng.random() < 0.6:
             maxlag = rng.choice(ud)                     # exactly an occurring distance
         else:
@@ -74,7 +78,10 @@ def gen_case(rng, nmax=30, metrics=('euclidean', 'euclidean', 'cityblock', 'cheb
                 bins = [round(b * 4) / 4.0 + 0.125 for b in bins]            # edges between distances
                 bins = sorted(set(bins))
             maxlag = None
-    case = {'coords': c.tolist(), 'values': v.tolist(), 'values_dtype': rng.choice([None, None, 'int64', 'uint8']), 'estimator': est, 'bin_func': bf, 'bins': bins,
+    integral = bool(np.all(c == np.round(c)) and c.min() >= 0 and c.max() < 30000)
+    case = {'coords': c.tolist(), 'values': v.tolist(), 'values_dtype': rng.choice([None, None, 'int64', 'uint8']),
+            'coords_dtype': rng.choice([None, None, 'int64', 'uint16']) if integral else None,
+            'coords_layout': rng.choice([None, None, None, 'F', 'strided', 'list'] + (['flat', 'flat'] if c.shape[1] == 1 else [])), 'values_as_list': rng.random() < 0.15, 'estimator': est, 'bin_func': bf, 'bins': bins,
             'maxlag': maxlag, 'n_lags': n_lags, 'dist_func': metric,
             'tags': {'points': kind, 'values': vkind, 'maxlag_form': mform, 'dim': int(c.shape[1]), 'n': n}}
     if cross:
@@ -96,6 +103,8 @@ def build(case, **over):
         v = v.astype(vd)          # integer-typed observations are legitimate input
     if case.get('values2') is not None and table is None:
         v = np.column_stack((v, np.array(case['values2'], dtype=float)))
+        if vd and np.all(v == np.round(v)) and (vd != 'uint8' or (v.min() >= 0 and v.max() <= 255)):
+            v = v.astype(vd)          # an integer-typed (also unsigned) value table is legitimate input
     kw = dict(estimator=case['estimator'], dist_func=case['dist_func'], n_lags=case['n_lags'],
               maxlag=case['maxlag'], fit_method=None)
     if case.get('bins') is not None:
@@ -104,6 +113,22 @@ def build(case, **over):
     else:
         kw['bin_func'] = case['bin_func']
     kw.update(over)
+    # the same points / values in other legitimate representations: integer dtypes, column-major or strided memory, plain lists
+    if case.get('coords_dtype') and np.all(c == np.round(c)) and c.min() >= 0:
+        c = c.astype(case['coords_dtype'])
+    lay = case.get('coords_layout')
+    if lay == 'F' and c.ndim == 2:
+        c = np.asfortranarray(c)
+    elif lay == 'strided':
+        big = np.zeros((2 * len(c),) + c.shape[1:], dtype=c.dtype)
+        big[::2] = c
+        c = big[::2]
+    elif lay == 'list':
+        c = c.tolist()
+    elif lay == 'flat' and c.ndim == 2 and c.shape[1] == 1:
+        c = c.ravel()          # one-dimensional coordinates given as a flat vector
+    if case.get('values_as_list') and table is None:
+        v = v.tolist()
     return Variogram(c, v, **kw)
 
 
@@ -353,7 +378,17 @@ def check_estimators(ctx, model, count):
                 bad += 1
                 ctx.problem('correspondence', 'estimators.%s differs from its exact model' % name,
                             {'estimator_input': x}, {'model': None if mv is None else float(mv), 'impl': iv})
-    ctx.tests['estimator_function_evaluations'] = count * 3
+    # class sizes around Genton's documented N >= 500 switch (k/q = 1/4) and large classes: documented formulas (float)
+    for n in (2, 3, 499, 500, 501, 640):
+        arr = np.array([rng.randint(0, 4096) / 64.0 for _ in range(n)], dtype=float)
+        for name in ('matheron', 'cressie', 'dowd', 'genton'):
+            want = doc_estimator(name, arr)
+            got = float(getattr(estimators, name)(arr))
+            if not gen.close(want, got, 1e-9, 1e-12):
+                bad += 1
+                ctx.problem('oracle', 'estimators.%s of a class of %d pairs differs from the documented formula' % (name, n), {'estimator': name, 'class_size': n, 'class_seed_values': arr[:6].tolist()},
+                            {'documented': want, 'impl': got}, {'what': 'estimator-formula', 'estimator': name})
+    ctx.tests['estimator_function_evaluations'] = count * 3 + 24
     return bad
 
 
